@@ -2,12 +2,15 @@ package queuecheck
 
 import (
 	"bufio"
+	"bytes"
 	"context"
 	"encoding/json"
 	"io"
 	"math/rand"
 	"os"
 	"strconv"
+	"strings"
+	"syscall"
 	"testing"
 	"testing/synctest"
 	"time"
@@ -25,10 +28,28 @@ import (
 
 // Crash replay (C02). Requires the vos overlay (queue.go's "os" import swapped).
 //
-// Input: scenarios {"id":N,"cfg":{"partial":..,"list":[..]},"hist":[...],"upstream":"commit"|"abort"}.
+// Input: scenarios {"id":N,"cfg":{"partial":..,"list":[..]},"hist":[...],"upstream":"commit"|"abort"|"refuse"|"abort0",
+// "shape":..,"src":..}.
 // For every scenario: a crash-free run learns the mutating file operations; then one run per
 // selected crash point (before op k, torn write k, ordered/strong snapshot), the recovery
 // incarnation runs on the snapshot; depth 2 repeats that inside the recovery run.
+//
+// Message shape (model: cfg.body = "data" | "empty"): "small" (default), "empty" (header-only mail, the
+// body file has length zero), "bare" (no header field and no body), "multi" (the body copy takes
+// several writes). Refusal (model: StoreFail(op) in the history, upstream "refuse"): the store fails
+// at the named step - an I/O error injected by the vos shim into that file operation, or a source
+// buffer that cannot be opened / whose reader fails half-way - Body returns the error and the source
+// aborts, as every source does; "abort0" = the source aborts without ever calling Body.
+// Harness-only dimension (the model does not depend on where the body bytes come from): src = the
+// kind of buffer the source hands over - "mem" (default), "file" (a file buffer the source removes
+// when the transaction is over), "lenover" / "lenzero" (a buffer whose Len() disagrees with what its
+// reader yields: a stale length hint, a stat failure). Whatever the scenario says, when Body returns
+// an error the harness aborts the transaction: the verdict is about what the restarted queue does then.
+// Two more harness-only dimensions: addr = the recipients' address alphabet ("" ASCII, "case" = they differ
+// only by the letter case of the local part, "uni" = non-ASCII local parts in an SMTPUTF8 message, "idn" =
+// an internationalized domain; they end up in the JSON meta-data file) and stray = the spool directory
+// holds entries that belong to no message of this run (a sub-directory, a text file, the quarantined
+// .meta_broken and a left-over .meta.new of other messages): the start-up scan has to step over them.
 
 type CrashSpec struct {
 	K        int    `json:"k"`
@@ -41,8 +62,122 @@ type Scenario struct {
 	Cfg      Cfg    `json:"cfg"`
 	Hist     []Step `json:"hist"`
 	Upstream string `json:"upstream"`
+	Shape    string `json:"shape"`
+	Src      string `json:"src"`
+	Addr     string `json:"addr"`
+	Stray    bool   `json:"stray"`
 	// explicit crash list (replay mode); empty = enumerate
 	Crashes []CrashSpec `json:"crashes"`
+}
+
+// crashMsg is the message of a shape: header and body bytes.
+func crashMsg(shape, subject string) (textproto.Header, []byte) {
+	hdr := textproto.Header{}
+	if shape != "bare" {
+		hdr.Add("Subject", subject)
+		hdr.Add("From", "<sender@example.com>")
+	}
+	switch shape {
+	case "empty", "bare":
+		return hdr, []byte{}
+	case "multi":
+		return hdr, bytes.Repeat([]byte("0123456789abcdefghijklmnopqrstuvwxyz 0123456789abcdefghijklmn\r\n"), 70*1024/64)
+	}
+	return hdr, []byte(crashBody)
+}
+
+func bodyKind(shape string) string {
+	if shape == "empty" || shape == "bare" {
+		return "empty"
+	}
+	return "data"
+}
+
+func failOpOf(h []Step) string {
+	for _, s := range h {
+		if s.A == "StoreFail" {
+			return s.Res
+		}
+	}
+	return ""
+}
+
+// oddBuf is a source buffer that misbehaves: Open fails, the reader fails after failAt bytes
+// (failAt >= 0), or Len() reports something else than the number of bytes the reader yields.
+type oddBuf struct {
+	data    []byte
+	openErr bool
+	failAt  int
+	lenRep  int
+	onFail  func(op string)
+}
+
+type oddReader struct {
+	b    *oddBuf
+	r    *bytes.Reader
+	left int
+}
+
+func (r *oddReader) Read(p []byte) (int, error) {
+	if r.b.failAt >= 0 {
+		if r.left <= 0 {
+			if r.b.onFail != nil {
+				r.b.onFail("read")
+			}
+			return 0, syscall.EIO
+		}
+		if len(p) > r.left {
+			p = p[:r.left]
+		}
+	}
+	n, err := r.r.Read(p)
+	r.left -= n
+	return n, err
+}
+func (r *oddReader) Close() error { return nil }
+func (b *oddBuf) Open() (io.ReadCloser, error) {
+	if b.openErr {
+		if b.onFail != nil {
+			b.onFail("open")
+		}
+		return nil, &os.PathError{Op: "open", Path: "source-buffer", Err: syscall.EIO}
+	}
+	return &oddReader{b: b, r: bytes.NewReader(b.data), left: b.failAt}, nil
+}
+func (b *oddBuf) Len() int      { return b.lenRep }
+func (b *oddBuf) Remove() error { return nil }
+
+// sourceBuf builds the buffer the source hands to Body.
+func sourceBuf(t *testing.T, src, failOp string, body []byte, onFail func(op string)) buffer.Buffer {
+	switch {
+	case failOp == "open:src":
+		return &oddBuf{data: body, openErr: true, failAt: -1, lenRep: len(body), onFail: onFail}
+	case failOp == "read:src":
+		return &oddBuf{data: body, failAt: len(body) / 2, lenRep: len(body), onFail: onFail}
+	case src == "lenover":
+		return &oddBuf{data: body, failAt: -1, lenRep: len(body) + 4096}
+	case src == "lenzero":
+		return &oddBuf{data: body, failAt: -1, lenRep: 0}
+	case src == "file":
+		d, err := os.MkdirTemp(workDir(), "srcbuf")
+		if err != nil {
+			t.Fatal(err)
+		}
+		fb, err := buffer.BufferInFile(bytes.NewReader(body), d)
+		if err != nil {
+			t.Fatal(err)
+		}
+		return fb
+	}
+	return buffer.MemoryBuffer{Slice: append([]byte{}, body...)}
+}
+
+// dropSource is what a source does with its buffer once the transaction is over.
+func dropSource(b buffer.Buffer) {
+	if fb, ok := b.(buffer.FileBuffer); ok {
+		fb.Remove()
+		os.Remove(fb.Path[:strings.LastIndexByte(fb.Path, '/')])
+	}
 }
 
 const crashMt = 2
@@ -53,16 +188,39 @@ type runResult struct {
 	crashed []bool
 }
 
+// strayEntries puts things into the spool that belong to no message the queue knows.
+func strayEntries(t *testing.T, dir string) {
+	if err := os.Mkdir(dir+"/lost+found", 0o700); err != nil {
+		t.Fatal(err)
+	}
+	for name, data := range map[string]string{
+		"00README.txt":        "spool of the verification harness\n",
+		"0000old.meta_broken": "{\"MsgMeta\":{\"ID\":\"0000old\"},\"From\":\"x@example.org\",\"To\":[\"y@example.org\"]}\n",
+		"0001old.meta.new":    "{\"MsgMeta\":{\"ID\":\"0001old\"},\"Fr",
+		"zzzz.tmp":            "",
+	} {
+		if err := os.WriteFile(dir+"/"+name, []byte(data), 0o600); err != nil {
+			t.Fatal(err)
+		}
+	}
+}
+
 func runCrash(t *testing.T, sc Scenario, crashes []CrashSpec, tno int, w *bufio.Writer) runResult {
 	var res runResult
+	caseVar, uniLocal, useIdn = sc.Addr == "case", sc.Addr == "uni", sc.Addr == "idn"
+	defer func() { caseVar, uniLocal, useIdn = false, false, false }()
 	tr := vtrace.New(w, tno)
 	cr := make([]map[string]interface{}, 0, len(crashes))
 	for _, c := range crashes {
 		cr = append(cr, map[string]interface{}{"k": c.K, "torn": c.Torn, "strength": c.Strength})
 	}
 	tr.Emit("Cfg", vtrace.Ev{"partial": sc.Cfg.Partial, "list": sc.Cfg.List, "mt": crashMt,
-		"upstream": sc.Upstream, "crashes": cr, "scenario": sc.ID})
+		"upstream": sc.Upstream, "crashes": cr, "scenario": sc.ID,
+		"body": bodyKind(sc.Shape), "shape": sc.Shape, "src": sc.Src, "addr": sc.Addr, "stray": sc.Stray})
 	plan := PlanOf(sc.Hist)
+	wantHdr, wantBody := crashMsg(sc.Shape, "verif crash")
+	wantHdrBytes := serializeHdr(wantHdr)
+	failOp := failOpOf(sc.Hist)
 	dir, err := os.MkdirTemp(workDir(), "spool")
 	if err != nil {
 		t.Fatal(err)
@@ -73,6 +231,9 @@ func runCrash(t *testing.T, sc Scenario, crashes []CrashSpec, tno int, w *bufio.
 			os.RemoveAll(d)
 		}
 	}()
+	if sc.Stray {
+		strayEntries(t, dir)
+	}
 	att := 0
 	bounceN := 0
 	for inc := 0; ; inc++ {
@@ -97,14 +258,21 @@ func runCrash(t *testing.T, sc Scenario, crashes []CrashSpec, tno int, w *bufio.
 			tr.Emit("Crash", vtrace.Ev{"k": k, "torn": o.Torn, "strength": ctl.Strength,
 				"at": o.Op + ":" + o.File})
 		}
+		if inc == 0 && failOp != "" && !strings.HasSuffix(failOp, ":src") {
+			ctl.FailOp = failOp // an I/O error in that step of the store chain
+			if failOp == "write:body" && sc.Shape == "multi" {
+				ctl.FailNth = 2
+			}
+			ctl.OnFail = func(o vos.Op) { tr.Emit("FsErr", vtrace.Ev{"op": o.Op, "file": o.File}) }
+		}
 		vos.Register(ctl)
 		tgt := &scripted.Target{Tr: tr, Plan: plan, Partial: sc.Cfg.Partial, ID: idOf,
 			InspectBody: func(_ int, hdr textproto.Header, body buffer.Buffer) vtrace.Ev {
-				ok := hdr.Get("Subject") == "verif crash" && hdr.Get("From") == "<sender@example.com>"
+				ok := bytes.Equal(serializeHdr(hdr), wantHdrBytes)
 				if r, err := body.Open(); err == nil {
 					b, _ := io.ReadAll(r)
 					r.Close()
-					ok = ok && string(b) == crashBody
+					ok = ok && bytes.Equal(b, wantBody)
 				} else {
 					ok = false
 				}
@@ -147,7 +315,7 @@ func runCrash(t *testing.T, sc Scenario, crashes []CrashSpec, tno int, w *bufio.
 					defer close(done)
 					ctx := context.Background()
 					meta := &module.MsgMetadata{ID: "msg" + strconv.Itoa(sc.ID), OriginalFrom: "sender@example.com",
-						SMTPOpts: smtp.MailOptions{}}
+						SMTPOpts: smtp.MailOptions{UTF8: sc.Addr == "uni"}}
 					d, err := q.Start(ctx, meta, "sender@example.com")
 					if err != nil {
 						t.Error(err)
@@ -159,15 +327,26 @@ func runCrash(t *testing.T, sc Scenario, crashes []CrashSpec, tno int, w *bufio.
 							return
 						}
 					}
-					hdr := textproto.Header{}
-					hdr.Add("Subject", "verif crash")
-					hdr.Add("From", "<sender@example.com>")
-					tr.Emit("QBody", nil)
-					if err := d.Body(ctx, hdr, buffer.MemoryBuffer{Slice: []byte(crashBody)}); err != nil {
-						t.Error(err)
+					if sc.Upstream == "abort0" { // the transaction ends before the source ever called Body
+						tr.Emit("QAbort", nil)
+						err := d.Abort(ctx)
+						tr.Emit("QAbortRet", vtrace.Ev{"err": err != nil})
 						return
 					}
-					tr.Emit("QBodyRet", nil)
+					hdr := wantHdr.Copy()
+					buf := sourceBuf(t, sc.Src, failOp, wantBody, func(op string) {
+						tr.Emit("FsErr", vtrace.Ev{"op": op, "file": "src"})
+					})
+					defer dropSource(buf)
+					tr.Emit("QBody", nil)
+					berr := d.Body(ctx, hdr, buf)
+					tr.Emit("QBodyRet", vtrace.Ev{"err": berr != nil})
+					if berr != nil { // refused: the source aborts the transaction and tells its client
+						tr.Emit("QAbort", nil)
+						err := d.Abort(ctx)
+						tr.Emit("QAbortRet", vtrace.Ev{"err": err != nil})
+						return
+					}
 					if sc.Upstream == "abort" {
 						tr.Emit("QAbort", nil)
 						actx := ctx
